@@ -45,6 +45,7 @@ func vhDecodeAndParse(pemBytes []byte) (*pem.Block, interface{}, error) {
 }
 
 var vhVerifyCalls int
+var vhVerifyNilRoots bool
 var vhVerifyRootsOK bool
 
 func vhCertVerify(c *x509.Certificate, opts x509.VerifyOptions) ([][]*x509.Certificate, error) {
@@ -53,6 +54,9 @@ func vhCertVerify(c *x509.Certificate, opts x509.VerifyOptions) ([][]*x509.Certi
 	}
 	vhVerifyCalls++
 	vhVerifyRootsOK = opts.Roots == vhRootPool && opts.Intermediates == vhIntermPool && opts.Roots != nil
+	if opts.Roots == nil {
+		vhVerifyNilRoots = true // crypto/x509 reads nil roots as "the system trust store"
+	}
 	if vUFBool("chain-ok", c.Subject.CommonName) {
 		return [][]*x509.Certificate{{c}}, nil
 	}
